@@ -46,6 +46,11 @@ PS_quick(kind) == {[p1 |-> x, p2 |-> y] : x \in EdQ(kind),
 PS_two(kind) == IF kind = "typed" THEN PS2(A_typed_q) ELSE PS2(A_dict)
 PS_full2(kind) == IF kind = "typed" THEN PS2(A_typed) ELSE PS2(A_dict_full)
 PS_three(kind) == IF kind = "typed" THEN PS3(A_typed_q) ELSE PS3(A_dict)
+\* three processes, quick: an open edit block, a whole-state replacement that queues behind it, and a second edit block
+\* that queues behind the replacement (what the second editor works on must be what the replacement left)
+PS_three_q(kind) == {[p1 |-> <<E("a", 1)>>, p2 |-> <<y>>, p3 |-> <<z>>] :
+                        y \in (IF kind = "typed" THEN {R("a", 7), P(8)} ELSE {R("b", 7), C0}),
+                        z \in (IF kind = "typed" THEN {E("a", 1), E("b", 10)} ELSE {E("a", 1), S("a", 5)})}
 PS_witness(kind) == PSW
 
 \* the programs of the instance, for the driver
